@@ -318,7 +318,88 @@ var c01Fixed = []gen.ItemSpec{
 	{K: "int8", Num: -8}, {K: "int16", Num: 300}, {K: "uint16", Num: 65535}, {K: "uint32", Num: 65}, {K: "uint64", Num: 1 << 62}, {K: "uintptr", Num: 4096}, {K: "complex64", Flt: 1.5, Num: 2}, {K: "array", Num: 1},
 }
 
+// c01Pointers: items that are pointers to values WITHOUT text methods.  For a pointer to a string, a number or a bool
+// the default formatting is the address (whatever the pointee holds, and never empty); for a pointer to a struct,
+// slice, map or array it is "&" and the content.  The expected text is what fmt makes of the very item, taken anew
+// at every point where the cell is asked to read it.
+type c01Name string
+
+func c01Pointers(c *Ctx) {
+	str, name, num, flt, flag := "alpha", c01Name("beta"), 7, 1.5, true
+	pstr := &str
+	st := &struct{ A, B string }{"x", "y"}
+	sl := &[]string{"p", "q"}
+	mp := &map[string]int{"k": 1}
+	arr := &[2]string{"m", "n"}
+	var iface interface{} = "in an interface"
+	items := []struct {
+		name   string
+		item   interface{}
+		mutate func()
+	}{
+		{"*string", pstr, func() { str = "" }},
+		{"*named string type", &name, func() { name = "changed" }},
+		{"*int", &num, func() { num = 0 }},
+		{"*float64", &flt, func() { flt = -2 }},
+		{"*bool", &flag, func() { flag = false }},
+		{"**string", &pstr, func() { str = "again" }},
+		{"*interface{}", &iface, func() { iface = 5 }},
+		{"*struct", st, func() { st.A = "changed" }},
+		{"*[]string", sl, func() { (*sl)[0] = "changed" }},
+		{"*map", mp, func() { (*mp)["k"] = 2 }},
+		{"*[2]string", arr, func() { arr[1] = "" }},
+	}
+	for _, it := range items {
+		desc := map[string]interface{}{"item": it.name}
+		c.Case = desc
+		c.Rec.Count("pointer_items_without_text_methods", 1)
+		want := fmt.Sprintf("%v", it.item)
+		cell := tabular.NewCell(it.item)
+		t := tabular.New()
+		t.AddRowItems(it.item)
+		live, err := t.CellAt(tabular.CellLocation{Row: 1, Column: 1})
+		if err != nil {
+			c.Rec.Violate("cell-unreachable", fmt.Sprint(err), desc)
+			return
+		}
+		check := func(when string) bool {
+			for k, cl := range []*tabular.Cell{&cell, live} {
+				c.Rec.Count("observations", 1)
+				if got := cl.String(); got != want {
+					c.Rec.Violate("text-form:pointer-to-plain-value:"+it.name, fmt.Sprintf("%s: cell (%d) of a %s item reads %q; the default formatting of the item is %q", when, k, it.name, got, want), desc)
+					return false
+				}
+				if cl.Empty() != (want == "") {
+					c.Rec.Violate("empty-flag:pointer-to-plain-value:"+it.name, fmt.Sprintf("%s: cell of a %s item with text %q reports Empty()=%v", when, it.name, want, cl.Empty()), desc)
+					return false
+				}
+				if cl.Item() != it.item {
+					c.Rec.Violate("item-identity:pointer", fmt.Sprintf("%s: Item() is not the pointer stored", when), desc)
+					return false
+				}
+			}
+			return true
+		}
+		if !check("after NewCell") {
+			return
+		}
+		it.mutate()
+		if !check("after the pointee changed, before Update") {
+			return
+		}
+		want = fmt.Sprintf("%v", it.item)
+		cell.Update()
+		live.Update()
+		if !check("after Update") {
+			return
+		}
+	}
+}
+
 func c01FixedRun(c *Ctx, i int, r *gen.R) {
+	if i == 0 {
+		c01Pointers(c)
+	}
 	if i < len(c01Fixed) {
 		spec := c01Fixed[i]
 		c01Check(c, &spec, r)
